@@ -281,6 +281,10 @@ static char* create_full_name(const char* name, const char* namespace)
   {
     // fix generic names
     char* name_copy = yr_strdup(name);
+
+    if (name_copy == NULL)
+      return NULL;
+
     char* end = strchr(name_copy, '`');
     if (end)
       *end = 0;
@@ -292,6 +296,9 @@ static char* create_full_name(const char* name, const char* namespace)
 
   // <namespace>.<name>
   char* full_name = yr_malloc(namespace_len + 1 + name_len + 1);
+
+  if (full_name == NULL)
+    return NULL;
 
   memcpy(full_name, namespace, namespace_len);
   full_name[namespace_len] = '.';
